@@ -529,6 +529,10 @@ def compare_run(run, owned):
                     tags.append('cfg.listen')
                 if ik.get('dir') != mk.get('dir'):
                     tags.append('cfg.dir')
+        elif r.ws[0] == 'rawload':
+            tags = [] if (r.lhs.split(' => ')[-1] if False else (r.model or '')).startswith('ok') or r.model in (None, '') else ['fixture.decode']
+        elif r.ws[0] in ('open', 'expect', 'nowalk'):
+            tags = []
         elif r.ws[0] == 'restart':
             tags = [] if r.impl == r.model else ['cfg.restart']
         elif r.ws[0] in ('req', 'prefill', 'seq', 'illegal', 'fault', 'crash', 'pool'):
